@@ -74,6 +74,10 @@ def collect(run, rng, nworlds, nqueries, mode, thresholds_fn, quality, nsteps=(4
                     targets = [("top", s, -1)]
                     if not s.is_atomic():
                         targets += [("leaf", sub, li) for li, (sub, off) in enumerate(s.leaf_searchers())]
+                    if "nested" in qobs.ops_of(aq) or any(o.startswith("nested") for o in qobs.ops_of(aq)):
+                        # (a parent and its children live in one segment: a matcher over the whole multi-segment
+                        # index, where "the parent before a document" can lie in another segment, is given no meaning)
+                        targets = [t for t in targets if t[0] == "leaf"] or targets
                     kind, srch, leafno = rng.choice(targets)
                     nc = rng.random() < 0.5
                     if sweep:
